@@ -14,7 +14,7 @@ CFG = dict(
         "hand-written pure models PolyVerif/Model/{Mesh,MeshOps,Primitives}.lean of modeling/mesh.go, modeling/meshops/*.go, "
         "modeling/primitives/*.go; tied to the code on every run by exact comparison of index lists (primitives) and of result "
         "shapes (operations) on generated inputs"],
-    residue=["index arithmetic of extrude/*.go, marching/canvas.go (LookupOrAdd), triangulation/bowyer_watson.go, repeat/{circle,line,curve,fibonacci}.go: "
+    residue=["index arithmetic of marching/canvas.go (LookupOrAdd), triangulation/bowyer_watson.go, extrude/screw.go, repeat/{circle,line,curve,fibonacci}.go: "
              "no theorem yet; covered by the WF oracle evaluated on every mesh these generators return",
              "LaplacianSmooth on Line/LineLoop topologies not modelled (VertexNeighborTable indexes m.indices[0] of an empty line loop: runtime panic, observation)",
              "material ranges are not part of WF; negative indices are unrepresentable in the model (oracle answers false)",
